@@ -36,6 +36,16 @@ theorem statusOf_safe (hi : Inv0 s) (hl : s.lock = 0) :
   simp only [statusOf, wp_locked, wp_bind, wp_getS, wp_deref, hl, true_and, henc, ↓reduceIte, wp_pure, and_true]
   exact And.intro (stacks_all_of_inv hi) (And.intro (Inv0.of_eq hi rfl rfl) rfl)
 
+theorem threadErrEncodable_repaired (t : DbgState) (tid : Nat) : threadErrEncodable repaired t tid = true := by
+  unfold threadErrEncodable
+  split <;> simp [errEncodable, repaired]
+
+/-- `status` computed: it returns the status object and leaves the state as it was -/
+theorem statusOf_eq (hi : Inv0 s) (hl : s.lock = 0) :
+    statusOf repaired s = .ok (.status, false) { s with lock := 0 } := by
+  have hA := stacks_all_of_inv hi
+  simp [statusOf, locked, bind, getS, deref, pure, hl, hA, threadErrEncodable_repaired]
+
 theorem lockState_safe (hi : Inv0 s) (hl : s.lock = 0) :
     wp (lockState repaired) (fun o s' => Post o s' ∧ o.1 ≠ .unencodable) s := by
   simp only [lockState, repaired, wp_bind, wp_getS, ↓reduceIte]
@@ -116,30 +126,86 @@ theorem extractValue_safe (tid : Nat) (v d : Str) (hi : Inv0 s) (hl : s.lock = 0
     rw [wp_ite]
     refine ⟨fun _ => by leaf hi, fun _ => by leaf hi⟩
 
+@[simp] theorem wp_evalExpr (o : EvalOutcome) (Q : Bool → DbgState → Prop) (s : DbgState) :
+    wp (evalExpr o) Q s ↔
+      match o with
+      | .ok => Q true s
+      | .error => Q false s
+      | .visits r => s.lock = 0 ∧ Q r s
+      | .diverges => Inv0 s ∧ s.lock = 0 := by
+  cases o with
+  | ok => rfl
+  | error => rfl
+  | diverges => rfl
+  | visits r =>
+    simp only [wp, evalExpr]
+    by_cases h : s.lock = 0 <;> simp [h]
+
+theorem setInThread_safe (env : Env) (tid : Nat) (v : Str) (t : DbgState) {is : Interro}
+    (hi : Inv0 s) (hg : IGood is) :
+    wp (setInThread env tid v t is) (fun a s' => Post a { s' with lock := s'.lock - 1 }) { s with lock := 1 } := by
+  simp only [setInThread, wp_bind, wp_deref, hg.2, true_and]
+  rw [wp_ite]
+  refine ⟨fun _ => by leaf hi, fun _ => ?_⟩
+  rw [wp_ite]
+  refine ⟨fun _ => by leaf hi, fun _ => ?_⟩
+  rw [wp_ite]
+  refine ⟨fun _ => by leaf hi, fun _ => ?_⟩
+  simp only [wp_bind, wp_modS, wp_pure]
+  exact And.intro (Inv0.put_istate hi rfl (tid := tid) (is := { is with hasVs := true, locals := v :: is.locals }) (And.intro hg.1 rfl) rfl) rfl
+
 theorem injectValue_safe (env : Env) (tid : Nat) (v e : Str) (hi : Inv0 s) (hl : s.lock = 0) :
-    wp (injectValue env tid v e) Post s := by
+    wp (injectValue repaired env tid v e) Post s := by
   simp only [injectValue, wp_bind, wp_getS]
   rw [wp_ite]
   refine ⟨fun _ => And.intro hi hl, fun _ => ?_⟩
-  simp only [wp_locked, wp_bind, wp_getS, hl, true_and]
+  simp only [repaired, ↓reduceIte, wp_bind, wp_locked, wp_getS, hl, true_and]
+  -- the second half: evaluation outside the lock, then the write-locked update
+  have second : ∀ t : DbgState, Inv0 t → t.lock = 0 → ∀ b : Bool, wp (if (!b) = true then (pure true : M Bool) else do
+        let ok ← evalExpr (env.eval e)
+        if (!ok) = true then pure true
+        else locked do
+          let s ← getS
+          match s.istates.lookup tid with
+          | none => pure true
+          | some is => if is.running = true then pure true else setInThread env tid v s is) Post t := by
+    intro t hi hl b
+    rw [wp_ite]
+    refine ⟨fun _ => And.intro hi hl, fun _ => ?_⟩
+    simp only [wp_bind, wp_evalExpr]
+    have third : ∀ ok : Bool, wp (if (!ok) = true then (pure true : M Bool)
+        else locked do
+          let s ← getS
+          match s.istates.lookup tid with
+          | none => pure true
+          | some is => if is.running = true then pure true else setInThread env tid v s is) Post t := by
+      intro ok
+      rw [wp_ite]
+      refine ⟨fun _ => And.intro hi hl, fun _ => ?_⟩
+      simp only [wp_locked, wp_bind, wp_getS, hl, true_and]
+      cases h2 : t.istates.lookup tid with
+      | none => leaf hi
+      | some is =>
+        have hg : IGood is := hi.2 _ (mem_of_lookup h2)
+        simp only
+        rw [wp_ite]
+        exact ⟨fun _ => by leaf hi, fun _ => setInThread_safe env tid v _ hi hg⟩
+    cases env.eval e with
+    | ok => exact third true
+    | error => exact third false
+    | visits r => exact ⟨hl, third r⟩
+    | diverges => exact ⟨hi, hl⟩
   cases h2 : s.istates.lookup tid with
-  | none => leaf hi
+  | none =>
+    simp only [wp_pure]
+    refine second _ ?_ ?_ false
+    · exact Inv0.of_eq hi rfl rfl
+    · rfl
   | some is =>
-    have hg : IGood is := hi.2 _ (mem_of_lookup h2)
-    simp only
-    rw [wp_ite]
-    refine ⟨fun _ => by leaf hi, fun _ => ?_⟩
-    rw [wp_ite]
-    refine ⟨fun _ => by leaf hi, fun _ => ?_⟩
-    simp only [wp_bind, wp_deref, hg.2, true_and]
-    rw [wp_ite]
-    refine ⟨fun _ => by leaf hi, fun _ => ?_⟩
-    rw [wp_ite]
-    refine ⟨fun _ => by leaf hi, fun _ => ?_⟩
-    rw [wp_ite]
-    refine ⟨fun _ => by leaf hi, fun _ => ?_⟩
-    simp only [wp_bind, wp_modS, wp_pure]
-    exact And.intro (Inv0.put_istate hi rfl (tid := tid) (is := { is with hasVs := true, locals := v :: is.locals }) (And.intro hg.1 rfl) rfl) rfl
+    simp only [wp_pure]
+    refine second _ ?_ ?_ (!is.running)
+    · exact Inv0.of_eq hi rfl rfl
+    · rfl
 
 end Ecal.DebugCmd
 
@@ -259,7 +325,7 @@ theorem runExtract_safe (args : List Str) (hi : Inv0 s) (hl : s.lock = 0) :
     exact wp_mono (extractValue_safe _ _ _ hi hl) (fun _ _ h => ⟨h, by simp⟩)
 
 theorem runInject_safe (env : Env) (args : List Str) (hi : Inv0 s) (hl : s.lock = 0) :
-    wp (runInject env args) PostO s := by
+    wp (runInject repaired env args) PostO s := by
   unfold runInject
   rw [wp_ite]
   refine ⟨fun _ => pure_safe _ (by decide) hi hl, fun h0 => ?_⟩
